@@ -255,18 +255,19 @@ theorem run_eq (cfg : Cfg) (ps : PS) (r : Req) (rs : List Req) :
 
 /-- bystander events are invisible to pair-setup: a history of events in which the accessory is not
     unpaired by its owner behaves exactly like the sequence of its pair-setup requests -/
-theorem runEv_eq_run (cfg : Cfg) (evs : List Ev) : ∀ ps, (∀ e ∈ evs, e ≠ Ev.unpair) →
+theorem runEv_eq_run (cfg : Cfg) (evs : List Ev) : ∀ ps, (∀ e ∈ evs, e.isOwner = false) →
     runEv cfg ps evs = run cfg ps (reqsOf evs) := by
   induction evs with
   | nil => intro ps _; rfl
   | cons e es ih =>
     intro ps h
-    have hes : ∀ e' ∈ es, e' ≠ Ev.unpair := fun e' he' => h e' (List.mem_cons_of_mem _ he')
+    have hes : ∀ e' ∈ es, e'.isOwner = false := fun e' he' => h e' (List.mem_cons_of_mem _ he')
     cases e with
     | req r => simp only [runEv, stepEv, reqsOf, ih _ hes]; rw [run_eq]
     | connLost => simp only [runEv, stepEv, reqsOf, ih _ hes]
     | other => simp only [runEv, stepEv, reqsOf, ih _ hes]
-    | unpair => exact absurd rfl (h _ (List.mem_cons_self))
+    | unpair => exact absurd (h _ (List.mem_cons_self)) (by simp [Ev.isOwner])
+    | setCode c => exact absurd (h _ (List.mem_cons_self)) (by simp [Ev.isOwner])
 
 /-- a served M1 always installs a fresh, unverified verifier made from this request's randomness,
     whatever verifier (or none) was there before -/
@@ -398,6 +399,7 @@ def traceEv (cfg : Cfg) : PS → Bool → List Ev → List Event
     ⟨ps, d, r, (step cfg ps r).1, (step cfg ps r).2.1⟩
       :: traceEv cfg (step cfg ps r).1 (ghostNext cfg ps d r) es
   | ps, d, .unpair :: es => traceEv cfg { ps with paired := [] } d es
+  | ps, d, .setCode c :: es => traceEv cfg { ps with pincode := c } d es
   | ps, d, .connLost :: es => traceEv cfg ps d es
   | ps, d, .other :: es => traceEv cfg ps d es
 
@@ -419,6 +421,8 @@ theorem gate_traceEv (cfg : Cfg) (evs : List Ev) : ∀ (ps : PS) (d : Bool),
       · exact ih _ _ (inv_step cfg ps d r hinv) e he
     | unpair =>
       exact ih { ps with paired := [] } d (by simpa [verifiedNow] using hinv) e (by simpa [traceEv] using he)
+    | setCode c =>
+      exact ih { ps with pincode := c } d (by simpa [verifiedNow] using hinv) e (by simpa [traceEv] using he)
     | connLost => exact ih _ _ hinv e (by simpa [traceEv] using he)
     | other => exact ih _ _ hinv e (by simpa [traceEv] using he)
 
